@@ -6,8 +6,9 @@ Correspondence: grammar-generated, shape-consistent random trees are built
 BOTH as pylops objects and as Gallina literals; matvec, rmatvec, matmat,
 rmatmat of the root and of root.H, root.T, root.conj() are run on small
 (Gaussian-)integer inputs and compared inside Coq with apmat (code 1) and
-with dense (code 2).  Kronecker is not in the Coq model: trees containing it
-are compared with the numpy evaluation only (oracle)."""
+with dense (code 2).  Kronecker and toreal/toimag are in the Coq model too
+(toreal/toimag at the R-linear level: real trees on real inputs = mode 1;
+arbitrary forw/adj flags on complex inputs = mode 2, apmat only)."""
 import json
 import os
 import subprocess
@@ -91,6 +92,11 @@ def depth(t):
 
 
 def is_complex(t):
+    """Is the region of the tree that receives the inputs complex?  A
+    toreal/toimag node returns real vectors: the region above it is real
+    (mode 2 = root toreal/toimag with arbitrary flags, driven with complex inputs)."""
+    if t["op"] == "realimag":
+        return bool(t.get("mode2"))
     if t["op"] == "leaf":
         return any(c[1] != 0 for r in t["A"] for c in r) or t.get("cplx", False)
     if t["op"] == "scale" and t["alpha"][1] != 0:
@@ -146,7 +152,18 @@ def npd(t):
         return np.block([[npd(e) for e in row] for row in t["ess"]])
     if op == "kron":
         return np.kron(npd(t["a"]), npd(t["b"]))
+    if op == "realimag":      # toreal() / toimag() (forw = adj = True): Re(A) / Im(A) on real vectors
+        D = npd(t["a"])
+        return np.real(D).copy() if t["real"] else np.imag(D).copy()
     raise ValueError(op)
+
+
+def mode_of(t):
+    """0 = C-linear tree, 1 = toreal/toimag inside a real tree (real inputs),
+    2 = root toreal/toimag with arbitrary flags and complex inputs (operational model only)."""
+    if t["op"] == "realimag" and t.get("mode2"):
+        return 2
+    return 1 if contains(t, "realimag") else 0
 
 
 def build(t, dt):
@@ -180,15 +197,18 @@ def build(t, dt):
     if op == "cols":
         return build(t["a"], dt).apply_columns(list(t["cs"]))
     if op == "vstack":
-        return pylops.VStack([build(e, dt) for e in t["es"]], dtype=dt)
+        return pylops.VStack([build(e, dt) for e in t["es"]], dtype=None if t.get("nodt") else dt)
     if op == "hstack":
-        return pylops.HStack([build(e, dt) for e in t["es"]], dtype=dt)
+        return pylops.HStack([build(e, dt) for e in t["es"]], dtype=None if t.get("nodt") else dt)
     if op == "blockdiag":
-        return pylops.BlockDiag([build(e, dt) for e in t["es"]], dtype=dt)
+        return pylops.BlockDiag([build(e, dt) for e in t["es"]], dtype=None if t.get("nodt") else dt)
     if op == "block":
-        return pylops.Block([[build(e, dt) for e in row] for row in t["ess"]], dtype=dt)
+        return pylops.Block([[build(e, dt) for e in row] for row in t["ess"]], dtype=None if t.get("nodt") else dt)
     if op == "kron":
         return pylops.Kronecker(build(t["a"], dt), build(t["b"], dt), dtype=dt)
+    if op == "realimag":
+        sub = build(t["a"], np.complex128 if is_complex(t["a"]) else np.float64)
+        return sub.toreal(forw=t["fw"], adj=t["aj"]) if t["real"] else sub.toimag(forw=t["fw"], adj=t["aj"])
     raise ValueError(op)
 
 
@@ -218,6 +238,11 @@ def gallina(t):
         return "(Cols %s %s)" % (common.natlist(t["cs"]), gallina(t["a"]))
     if op in LIST_OPS:
         return "(%s [%s])" % ({"vstack": "VStack", "hstack": "HStack", "blockdiag": "BlockDiag"}[op], "; ".join(gallina(e) for e in t["es"]))
+    if op == "kron":
+        return "(Kron %s %s)" % (gallina(t["a"]), gallina(t["b"]))
+    if op == "realimag":
+        b = lambda x: "true" if x else "false"
+        return "(RealImag %s %s %s %s)" % (b(t["fw"]), b(t["aj"]), b(t["real"]), gallina(t["a"]))
     if op == "block":
         return "(Block GS [%s])" % "; ".join("[" + "; ".join(gallina(e) for e in row) + "]" for row in t["ess"])
     raise ValueError(op)
@@ -237,12 +262,48 @@ def infer_complex_dtype(t):
         return np.iscomplexobj(leaf_arr(t))
     if op == "scale":
         return t["alpha"][1] != 0 or bool(t.get("calpha")) or infer_complex_dtype(t["a"])
+    if op == "realimag":
+        return False
     if op in LIST_OPS or op in ("block", "kron"):
         return None  # tree dtype
     if op in ("add", "sub", "mul"):
         a, b = infer_complex_dtype(t["a"]), infer_complex_dtype(t["b"])
         return None if (a is None or b is None) and not (a or b) else bool(a or b)
     return infer_complex_dtype(t["a"])
+
+
+def gen_outer(r, m, n, d, cfg):
+    """Real-coefficient tree (the constructors covered by Expr.rwf) whose
+    toreal()/toimag() nodes wrap complex C-linear trees."""
+    ops = ["leaf", "realimag"]
+    if d > 0:
+        ops += ["add", "sub", "mul", "scale", "neg", "H", "T", "conj", "realimag", "realimag"]
+        if m == n:
+            ops += ["pow"]
+        if r.random() < 0.85:
+            ops.remove("leaf")
+    op = r.choice(ops)
+    g = lambda mm, nn: gen_outer(r, mm, nn, d - 1, cfg)
+    if op == "leaf":
+        return {"op": "leaf", "m": m, "n": n, "cplx": False, "A": [[[r.randint(-3, 3), 0] for _ in range(n)] for _ in range(m)]}
+    if op == "realimag":
+        inner = dict(cfg, cplx=True, kron=True, cols_nested=True)
+        a = gen(r, m, n, max(d - 1, 0), inner) if r.random() < 0.8 else g(m, n)
+        return {"op": "realimag", "fw": True, "aj": True, "real": r.random() < 0.5, "a": a}
+    if op in ("add", "sub"):
+        return {"op": op, "a": g(m, n), "b": g(m, n)}
+    if op == "mul":
+        k = r.randint(1, cfg["maxdim"])
+        return {"op": "mul", "a": g(m, k), "b": g(k, n), "at": r.random() < 0.5}
+    if op == "scale":
+        return {"op": "scale", "alpha": [r.choice([-3, -2, -1, 2, 3]), 0], "a": g(m, n), "left": r.random() < 0.5}
+    if op == "neg":
+        return {"op": "neg", "a": g(m, n)}
+    if op == "pow":
+        return {"op": "pow", "p": r.randint(0, 2), "a": g(m, m)}
+    if op in ("H", "T"):
+        return {"op": op, "a": g(n, m)}
+    return {"op": "conj", "a": g(m, n)}
 
 
 def gen(r, m, n, d, cfg):
@@ -257,7 +318,7 @@ def gen(r, m, n, d, cfg):
             ops += ["hstack"]
         if m >= 2 and n >= 2:
             ops += ["blockdiag", "block"]
-        if cfg["kron"] and r.random() < 0.5:
+        if (cfg["kron"] and r.random() < 0.5) or r.random() < 0.06:
             ops += ["kron"]
         if cfg["cols_nested"] and r.random() < 0.3:
             ops += ["cols"]
@@ -318,6 +379,35 @@ def gen_cols(r, m, n, d, cfg):
     return {"op": "cols", "cs": r.sample(range(n2), n), "a": a}
 
 
+def gen_natdtype(r, m, n, d, cfg):
+    """A stack built WITHOUT dtype= (pylops infers it from its blocks) whose
+    blocks all have a complex pylops dtype: complex scalar times a real
+    subtree, or a complex leaf."""
+    m, n = max(m, 2), max(n, 2)
+    real_cfg = dict(cfg, cplx=False, kron=False, cols_nested=False)
+
+    def blk(mi, ni):
+        if r.random() < 0.7:
+            return {"op": "scale", "alpha": [r.randint(-2, 2), r.choice([-2, -1, 1, 2])], "left": r.random() < 0.5,
+                    "a": gen(r, mi, ni, max(d - 1, 0), real_cfg)}
+        return {"op": "leaf", "m": mi, "n": ni, "cplx": True,
+                "A": [[[r.randint(-3, 3), r.randint(-3, 3)] for _ in range(ni)] for _ in range(mi)]}
+    op = r.choice(["vstack", "hstack", "blockdiag", "block"])
+    if op == "vstack":
+        t = {"op": op, "es": [blk(mi, n) for mi in split(r, m, 2)]}
+    elif op == "hstack":
+        t = {"op": op, "es": [blk(m, ni) for ni in split(r, n, 2)]}
+    elif op == "blockdiag":
+        t = {"op": op, "es": [blk(mi, ni) for mi, ni in zip(split(r, m, 2), split(r, n, 2))]}
+    else:
+        t = {"op": op, "ess": [[blk(mi, ni) for ni in split(r, n, 2)] for mi in split(r, m, 2)]}
+    t["nodt"] = True
+    w = r.choice(["none", "neg", "H", "conj", "scale"])
+    if w == "scale":
+        return {"op": "scale", "alpha": [r.choice([-2, 2, 3]), 0], "left": True, "a": t}
+    return t if w == "none" else {"op": w, "a": t}
+
+
 def gen_tree(r, tier, kind):
     maxd = 3 if tier == "quick" else 5
     cfg = {"cplx": kind != "real", "maxdim": 4 if tier == "quick" else 5, "maxpow": 3,
@@ -328,6 +418,15 @@ def gen_tree(r, tier, kind):
     for _ in range(200):
         if kind == "colsroot":
             t = gen_cols(r, m, n, d, cfg)
+        elif kind == "natdtype":
+            t = gen_natdtype(r, m, n, d, cfg)
+        elif kind == "realimag":
+            t = gen_outer(r, m, n, d, cfg)
+            if not contains(t, "realimag"):
+                continue
+        elif kind == "realimag_op":
+            t = {"op": "realimag", "fw": r.random() < 0.6, "aj": r.random() < 0.6, "real": r.random() < 0.5,
+                 "mode2": True, "a": gen(r, m, n, d, dict(cfg, kron=True))}
         else:
             t = gen(r, m, n, d, cfg)
         if size(t) > (40 if tier == "quick" else 90):
@@ -386,6 +485,26 @@ def expected(D, v, c, X):
     return Dv @ X if c in ("matvec", "matmat") else Dv.conj().T @ X
 
 
+def expected_tree(t, v, c, X):
+    """numpy evaluation of one call on the tree."""
+    if mode_of(t) != 2:
+        return expected(npd(t), v, c, X)
+    # root toreal/toimag with arbitrary flags on complex inputs (R-linear)
+    D = npd(t["a"])
+    pr = (lambda Z: Z.real) if t["real"] else (lambda Z: Z.imag)
+    pa = (lambda Z: Z.real) if t["real"] else (lambda Z: -Z.imag)
+    fwd = lambda Z: (pr(D @ Z) if t["fw"] else D @ Z) + 0j
+    adj = lambda Z: (pa(D.conj().T @ Z) if t["aj"] else D.conj().T @ Z) + 0j
+    first = c in ("matvec", "matmat")
+    if v == "root":
+        return fwd(X) if first else adj(X)
+    if v == "H":
+        return adj(X) if first else fwd(X)
+    if v == "T":
+        return np.conj(adj(np.conj(X))) if first else np.conj(fwd(np.conj(X)))
+    return np.conj(fwd(np.conj(X))) if first else np.conj(adj(np.conj(X)))
+
+
 def run_tree(t, X):
     """Runs the implementation. Returns {(view, call): Y | exception}."""
     cplx = is_complex(t)
@@ -417,7 +536,7 @@ def disagree(t, v, c, X):
     agree, else (observed, expected)."""
     cplx = is_complex(t)
     dt = np.complex128 if cplx else np.float64
-    exp = expected(npd(t), v, c, X)
+    exp = expected_tree(t, v, c, X)
     with warnings.catch_warnings():
         warnings.simplefilter("ignore")
         try:
@@ -522,6 +641,8 @@ def show(t):
         return "%s[%s]" % (op, ", ".join(show(e) for e in t["es"]))
     if op == "block":
         return "block[%s]" % "; ".join(", ".join(show(e) for e in row) for row in t["ess"])
+    if op == "realimag":
+        return "%s<forw=%s,adj=%s>(%s)" % ("toreal" if t["real"] else "toimag", t["fw"], t["aj"], show(t["a"]))
     extra = {"scale": lambda: str(cnum(t["alpha"])), "pow": lambda: str(t["p"]), "cols": lambda: str(t["cs"])}.get(op, lambda: "")()
     return "%s%s(%s)" % (op, "<" + extra + ">" if extra else "", show(t["a"]))
 
@@ -573,7 +694,7 @@ def case_lit(cid, t, calls):
     for (v, c, X, Y) in calls:
         cs.append("{| c_view := %d; c_dir := %d; c_X := %s; c_Y := %s |}" % (
             VIEWS.index(v), 0 if c in ("matvec", "matmat") else 1, cols_lit(X), cols_lit(Y)))
-    return "{| e_id := %d; e_e := %s;\n  e_calls := [%s] |}" % (cid, gallina(t), ";\n   ".join(cs))
+    return "{| e_id := %d; e_mode := %d; e_e := %s;\n  e_calls := [%s] |}" % (cid, mode_of(t), gallina(t), ";\n   ".join(cs))
 
 
 def known_match(fid):
@@ -610,11 +731,11 @@ def main(tier):
     thms, axioms = common.props_assumptions(PID)
     t0 = time.time()
     quick = tier == "quick"
-    plan = ([("real", 45), ("complex", 75), ("colsroot", 12), ("colsnested", 8), ("kron", 16)] if quick else
-            [("real", 200), ("complex", 400), ("colsroot", 40), ("colsnested", 30), ("kron", 80)])
-    cases, oracle_only, kfound = [], [], {}
+    plan = ([("real", 40), ("complex", 64), ("colsroot", 10), ("colsnested", 8), ("kron", 16), ("realimag", 18), ("realimag_op", 8), ("natdtype", 10)] if quick else
+            [("real", 540), ("complex", 1080), ("colsroot", 120), ("colsnested", 90), ("kron", 240), ("realimag", 270), ("realimag_op", 120), ("natdtype", 120)])
+    cases, kfound = [], {}
     stats = {"trees": 0, "calls": 0, "by_kind": {}, "by_depth": {}, "ops": {}, "shapes_1xN_or_Nx1": 0, "complex_trees": 0,
-             "complex_scalar_on_real_subtree": 0, "oracle_only_calls": 0}
+             "complex_scalar_on_real_subtree": 0, "by_mode": {}}
     nontriv = set()
     cid = 0
     suppressed = [0]
@@ -674,19 +795,8 @@ def main(tier):
                 good.append((v, c, X[(v, c)], Y))
             if tree_bad:
                 continue
-            if contains(t, "kron"):
-                # not in the Coq model: numpy oracle only
-                for (v, c, Xi, Y) in good:
-                    stats["oracle_only_calls"] += 1
-                    if disagree(t, v, c, Xi) is not None:
-                        ts = shrink(t, v, c, Xi)
-                        d = disagree(ts, v, c, Xi)
-                        viol("%s of %s view differs from the numpy evaluation of the same expression: tree=%s" % (c, v, show(ts)),
-                                    {"kind": "value", "tree": ts, "view": v, "call": c, "X": jz(Xi), "observed": str(d[0]), "expected": jz(d[1])})
-                        break
-                oracle_only.append(cid)
-                continue
             if good:
+                stats["by_mode"][mode_of(t)] = stats["by_mode"].get(mode_of(t), 0) + 1
                 cases.append((cid, t, good))
     # canary: a correct case with one output entry shifted by 1
     r = common.rng(PID, "canary")
@@ -752,14 +862,14 @@ def main(tier):
 
     ncoq_calls = sum(len(c[2]) for c in cases) - 1
     R.cov.update(
-        obligations=len(thms) + len(cases) - 1 + len(oracle_only),
-        discharged=len(thms) + max(0, len(cases) - 1 + len(oracle_only) - len(R.violations) - suppressed[0]),
+        obligations=len(thms) + len(cases) - 1,
+        discharged=len(thms) + max(0, len(cases) - 1 - len(R.violations) - suppressed[0]),
         checker_cmd="make -C coq + coqc Algebra/MatAlg.v Algebra/Expr.v Corr/CheckC03.v + coqc Props/C03.v (Print Assumptions) + coqc .work/C03/c03_*.v (vm_compute: implementation output vs Expr.apmat and vs mv (dense e))",
         theorems=thms, axioms_reported=axioms, evaluations=stats["calls"], distinct_nontrivial=len(nontriv),
-        rule="one case per generated tree; 16 calls per tree = {root, .H, .T, .conj()} x {matvec, rmatvec, matmat(K=2), rmatmat(K=2)} on integer / Gaussian-integer inputs; non-trivial = distinct (tree, view, call) with non-zero implementation output; trees containing Kronecker are compared with numpy only (not in the Coq model)",
-        trees=stats["trees"], calls_compared_in_coq=ncoq_calls, trees_in_coq=len(cases) - 1, trees_oracle_only=len(oracle_only),
-        distribution=stats, modelled=["MatrixMult leaves", "+", "-", "@/*", "scalar*", "neg", "**p", ".H", ".T", ".conj()", "apply_columns", "VStack", "HStack", "BlockDiag", "Block"],
-        oracle_only=["Kronecker (numpy.kron oracle)"], not_covered=["toreal/toimag (_RealImagLinearOperator)"],
+        rule="one case per generated tree; 16 calls per tree = {root, .H, .T, .conj()} x {matvec, rmatvec, matmat(K=2), rmatmat(K=2)} on integer / Gaussian-integer inputs; non-trivial = distinct (tree, view, call) with non-zero implementation output; mode 0 = C-linear trees (Expr.wf) compared with apmat and dense, mode 1 = real trees with toreal()/toimag() nodes over complex subtrees on real inputs (Expr.rwf) compared with apmat and dense, mode 2 = root toreal/toimag with arbitrary forw/adj flags on complex inputs compared with apmat only (plus numpy in the search)",
+        trees=stats["trees"], calls_compared_in_coq=ncoq_calls, trees_in_coq=len(cases) - 1,
+        distribution=stats, modelled=["MatrixMult leaves", "+", "-", "@/*", "scalar*", "neg", "**p", ".H", ".T", ".conj()", "apply_columns", "VStack", "HStack", "BlockDiag", "Block", "Kronecker", "toreal/toimag"],
+        oracle_only=[], not_covered=["toreal/toimag nested under stacks/apply_columns/Kronecker of the real outer tree (Expr.rwf covers +,-,@,scalar,neg,**,.H,.T,.conj() above them)"],
         proposed_known_findings=PROPOSED_KNOWN, t_python=round(t_py, 1), t_coq=round(t_coq, 1))
     R.samples = [{"tree": show(c[1]), "shape": list(npd(c[1]).shape), "complex": is_complex(c[1]),
                   "x": [str(z) for z in c[2][0][2][:, 0][:4]], "Op_x": [str(z) for z in np.asarray(c[2][0][3])[:, 0][:4]]}
